@@ -68,6 +68,7 @@ class _Group:
         env['PYTHONHASHSEED'] = str(hashseed)
         env['VERIF_REPO'] = repo_path()
         env['SIM_BASE'] = simbase
+        env['VERIF_BUILD'] = os.path.join(VERIF, 'build')
         env['PYTHONDONTWRITEBYTECODE'] = '1'
         env.pop('PYTHONPATH', None)
         self.errlog = os.path.join(simbase, f'zygote-h{hashseed}.err')
